@@ -94,6 +94,31 @@ def key_of(fn, c, ordinal):
     return "%s|%s|%s#%d" % (c["kind"], fn.path.split("::", 1)[1], c["recv"], ordinal)
 
 
+def _inherited(prog, k, fn, c, justified, inv):
+    """justification carried over to a construct whose exact key changed although nothing was added:
+    (a) the construct moved into a former caller together with the body of a function that no longer exists;
+    (b) within one function, as many constructs of this kind are found as are justified for it (a re-spelled receiver)."""
+    from . import inline
+    kind = c["kind"]
+    short = fn.path.split("::", 1)[1]
+    tail = k.split("|", 2)[2]
+    for j in justified:
+        parts = j.split("|", 2)
+        if len(parts) != 3 or parts[0] != kind:
+            continue
+        jfn = fn.path.split("::", 1)[0] + "::" + parts[1]
+        if jfn not in prog.fns and inline.is_known(jfn) and fn.path in inline.frozen_callers(jfn):
+            if parts[2] == tail or (not c["msg"] and parts[2].split("#")[0] == tail.split("#")[0]) or c["msg"] and parts[2] == c["msg"][:60]:
+                return j
+    found = [x for x in inv if x.startswith("%s|%s|" % (kind, short)) and not inv[x][1]["debug_only"]]
+    just = [x for x in justified if x.startswith("%s|%s|" % (kind, short))]
+    extra_found = [x for x in found if x not in justified]
+    free_just = [x for x in just if x not in inv]
+    if k in extra_found and len(extra_found) <= len(free_just):
+        return free_just[extra_found.index(k)]
+    return None
+
+
 def inventory(prog, roots):
     """{key: (fn, construct)} over functions reachable from roots"""
     reach = prog.reachable_from(roots)
@@ -168,6 +193,9 @@ def check(ck, prog, roots, rule, justified, api_fns=None, label=""):
         n_exp += 1
         if k in justified:
             ck.ok(rule, k, justified[k], where(fn, c["line"]))
+        elif _inherited(prog, k, fn, c, justified, inv):
+            ck.ok(rule, k, "same construct as a justified one (moved with an inlined function, or its receiver re-spelled): "
+                           + _inherited(prog, k, fn, c, justified, inv), where(fn, c["line"]))
         else:
             ck.bad(rule, k, "explicit abort construct (%s%s) reachable from %s entry points is not in the justified table: "
                             "either a new abort path or an error return rewritten into a panic"
